@@ -828,8 +828,26 @@ func (e *Env) callExpr(n *ast.CallExpr, hint string) (Term, types.Type) {
 		ne := e.clone()
 		var gt types.Type
 		if len(n.Args) == 4 {
-			// all(x, Sort, GoTypeOf(expr), body): take the Go type from another expression
-			_, gt = e.expr(n.Args[2], "")
+			// all(x, Sort, GoTypeOf(expr), body): take the Go type from another expression;
+			// all(x, Ref, "pkg.Type", body): x ranges over pointers to the named struct type
+			if lit, ok := n.Args[2].(*ast.BasicLit); ok && lit.Kind == token.STRING {
+				parts := strings.SplitN(strings.Trim(lit.Value, "\"`"), ".", 2)
+				if len(parts) == 2 {
+					for _, p := range e.st.vc.w.prog.AllPackages() {
+						if p.Pkg.Name() != parts[0] {
+							continue
+						}
+						if tn, ok := p.Pkg.Scope().Lookup(parts[1]).(*types.TypeName); ok {
+							gt = types.NewPointer(tn.Type())
+						}
+					}
+				}
+				if gt == nil {
+					panic(fmt.Sprintf("contract: unknown type %s in quantifier", lit.Value))
+				}
+			} else {
+				_, gt = e.expr(n.Args[2], "")
+			}
 		}
 		ne.vars[v] = EV{Term{qn, srt}, gt}
 		body, _ := ne.expr(n.Args[len(n.Args)-1], sBool)
